@@ -332,6 +332,12 @@ def oracle(case, result):
     # ids: pairwise distinct over all datasets of all contexts
     flat_ids = [i for chain in ids for i in chain]
     if len(set(flat_ids)) != len(flat_ids):
+        for k, chain in enumerate(ids):
+            for j in range(1, len(chain)):
+                if chain[j] == chain[j - 1] and pipelines[k][2][j - 1][0] == PERSIST:
+                    return ('persist:on-a-persisted-dataset-returns-the-same-dataset',
+                            f'pipeline {k}: node {j} = node {j - 1}.persist()/cache() is the SAME dataset (id {chain[j]}): '
+                            f'unpersisting it would drop the entries of node {j - 1}; dataset ids {ids}')
         return ('Context.newRddId:duplicate-id', f'dataset ids {ids}')
     now = 0
     added = [dict() for _ in managers]         # ground truth: when each present entry was added
@@ -390,6 +396,14 @@ def oracle(case, result):
             left = [key for key, _ in obs[mi][0] if key[0] == ids[k][j]]
             if left:
                 return ('unpersist:entry-left-behind', f'step {t} {a}: entries {left} remain')
+            # only the entries of THAT dataset are gone (an adjacent persisted parent keeps its own)
+            if t > 0:
+                now_keys = {key for o in obs for key, _ in o[0]}
+                gone = [key for o in steps[t - 1][2] for key, _ in o[0]
+                        if key[0] != ids[k][j] and key not in now_keys]
+                if gone:
+                    return ('unpersist:entries-of-another-dataset-removed',
+                            f'step {t} {a}: unpersist of dataset {ids[k][j]} also removed {gone}')
         # bookkeeping of add times from the recorded add()/join() calls on the driver managers
         for mi, key, tt in aux[t]:
             added[mi][key] = tt
@@ -473,7 +487,11 @@ def _rand_pipeline(rng, nctx, force_persist=True):
         if q > 0:
             out.append(stages[q - 1])
         if marks[q]:
-            out.append((PERSIST, rng.randrange(N_PERSIST)))
+            v = rng.randrange(N_PERSIST)
+            out.append((PERSIST, v))
+            if rng.random() < 0.2:
+                # directly adjacent persist marks, same or another level
+                out.append((PERSIST, v if rng.random() < 0.5 else rng.randrange(N_PERSIST)))
     return (rng.randrange(nctx), parts, out)
 
 
@@ -645,7 +663,7 @@ def _reuse_case(rng):
 
 
 def generate(rng, tier):
-    cases = _hole_cases() + list(CORPUS) + _level_cases() + _corpus_files()
+    cases = _adjacent_cases() + _hole_cases() + list(CORPUS) + _level_cases() + _corpus_files()
     for _ in range(200 if tier == 'quick' else 3000):
         cases.append(_reuse_case(rng))
     cases += _exhaustive(rng, tier)
@@ -1364,6 +1382,27 @@ def _interleaving_checks(rng, tier):
                         fail = ('unpersist:entry-left-behind', f'after the job with finish order {order}')
             if fail:
                 yield (fail[0], 'tasks of one job sharing the PersistedRDD object, finishing out of order', fail[1], case)
+
+
+def _adjacent_cases():
+    """Directly adjacent persist marks (q = p.persist() with p already persisted): same level, different levels,
+    cache() on a persisted dataset, three in a row; an action fills the cache, q.unpersist(), then actions on p, on
+    q (still usable), on the returned dataset and on a descendant; also unpersist of p with q kept."""
+    out = []
+    pairs = [(0, 0), (1, 1), (0, 1), (1, 0)] + [(v, v) for v in range(2, N_PERSIST)] + \
+            [(v, (v + 1) % N_PERSIST) for v in range(N_PERSIST)] + [(v, 1) for v in range(2, N_PERSIST)]
+    parts = [[1, 2], [3], [4, 5]]
+    for a, b in pairs:
+        for managers, contexts in (([None], [(0, False)]), ([50], [(0, False)]), ([None], [(0, True)])):
+            sts = [(MAP, 0), (PERSIST, a), (PERSIST, b), (MAP, 1)]
+            # nodes: 1 map, 2 p, 3 q, 4 descendant
+            out.append((managers, contexts, [(0, parts, sts)],
+                        [(0, 0, 3, 0, 0), (1, 0, 3), (0, 0, 2, 0, 0), (0, 0, 4, 0, 0), (0, 0, 3, 1, 0), (0, 0, 2, 2, 2)]))
+            out.append((managers, contexts, [(0, parts, sts)],
+                        [(0, 0, 4, 3, 0), (0, 0, 4, 0, 0), (1, 0, 2), (0, 0, 3, 0, 0), (0, 0, 4, 0, 0), (1, 0, 3), (0, 0, 2, 0, 0)]))
+        out.append(([None], [(0, False)], [(0, parts, [(PERSIST, a), (PERSIST, b), (PERSIST, a), (MAP, 0)])],
+                    [(0, 0, 4, 0, 0), (1, 0, 2), (0, 0, 1, 0, 0), (0, 0, 3, 0, 0), (1, 0, 3), (0, 0, 4, 0, 0)]))
+    return out
 
 
 def _hole_cases():
